@@ -724,6 +724,7 @@ func (x *Exec) lockEvent(st *State, fr *Frame, kind string, lock Value) {
 	st.events = append(st.events, ev)
 	if kind == "lock" {
 		x.syncPoint(st)
+		x.guardHavoc(st, p)
 		ev.Heap = copyHeap(st.heap)
 		st.held[key] = true
 	} else {
